@@ -107,6 +107,9 @@ class History:
                 out.append("ADVANCE %d" % op[1])
             elif op[0] == "RESTART":
                 out.append("CLOSE")
+                if len(op) > 1:
+                    # the program comes back with a different file-count limit (configuration changed between runs)
+                    openline = "OPEN %s %d %d %d" % (path, self.L, op[1], self.options)
                 out.append(openline)
             elif op[0] == "FLUSH":
                 out.append("FLUSH")
@@ -204,6 +207,7 @@ def gen_history(rnd, profile):
         h.start_ms = ((h.start_ms + off_ms) // DAY_MS) * DAY_MS + DAY_MS - rnd.randint(1, 3000) - off_ms
     n_ops = rnd.randint(*profile.get("n_ops", (5, 60)))
     rid = 0
+    curN = h.N
     p_day = profile.get("p_day", 0.06) if not h.real else 0.0
     p_restart = profile.get("p_restart", 0.06)
     p_foreign = profile.get("p_foreign", 0.02)
@@ -231,7 +235,12 @@ def gen_history(rnd, profile):
             h.ops.append(("ADV", n * DAY_MS + rnd.randint(-3600000, 3600000)))
             h.tags.add("daychange")
         elif r < p_day + p_restart:
-            h.ops.append(("RESTART",))
+            if curN != 1 and rnd.random() < profile.get("p_reconf", 0.0):
+                curN = rnd.choice([2, 3, 5]) if curN != 2 else rnd.choice([3, 12])
+                h.ops.append(("RESTART", curN))
+                h.tags.add("reconf")
+            else:
+                h.ops.append(("RESTART",))
             h.tags.add("restart")
         elif r < p_day + p_restart + p_foreign and fnames:
             nm = rnd.choice(fnames)
@@ -343,6 +352,9 @@ class Analysis:
         for op in h.ops:
             if op[0] == "W":
                 self.byid[op[1]] = record_bytes(op[2])
+        self.curN = h.N
+        self.restart_ns = [(op[1] if len(op) > 1 else None) for op in h.ops if op[0] == "RESTART"]
+        self.rot_since_reconf = True
         self.daily = bool(h.options & OPT_DAILY)
         self.rotating = h.L > 0 or bool(h.options & (OPT_STARTUP | OPT_DAILY))
 
@@ -415,6 +427,10 @@ class Analysis:
                 self.stats["records"] += 1
             if cmd == "OPEN" and rec["i"] > 0:
                 self.stats["restarts"] += 1
+                nxt = self.restart_ns.pop(0) if self.restart_ns else None
+                if nxt is not None:
+                    self.curN = nxt
+                    self.rot_since_reconf = False
             removed_this_op = []
             rotated_before = sum(1 for e in self.entries if e["removed"] is None)
             for ev in rec.get("events", []):
@@ -438,9 +454,11 @@ class Analysis:
             return
         if k == "rename":
             b = os.path.basename(ev["b"])
+            if a == self.h.fname:
+                self.rot_since_reconf = True
             if a == self.h.fname and self.rx.match(b):
                 self.stats["rotations"] += 1
-                if self.h.N == 1:
+                if self.curN == 1:
                     self.add("C06", "C06:rotated-with-N=1", "rotation to %s although the file-count limit is 1" % b, op)
                 ent = {"name": b, "orig": b, "created": op, "content": None, "removed": None, "cause": None, "gz": False}
                 prior = self.names_ever.get(b, [])
@@ -633,11 +651,12 @@ class Analysis:
 
     # -- C06
     def check_retention(self, op, flushed, removed_this_op, rotated_before):
-        N = self.h.N
+        N = self.curN
         live_rot = [nm for nm, cur in self.live.items() if not cur["dir"] and nm not in self.foreign
                     and nm != self.h.fname and self.rx.match(nm)]
         has_active = self.h.fname in self.live
-        if N >= 2 and len(live_rot) + (1 if has_active else 0) > N:
+        # after a restart with a lower limit the surplus of the earlier configuration may stay until the first rotation
+        if N >= 2 and self.rot_since_reconf and len(live_rot) + (1 if has_active else 0) > N:
             self.add("C06", "C06:too-many-files", "%d log files exist (limit %d): %s" % (len(live_rot) + 1, N, sorted(live_rot)), op)
         if N <= 0 and removed_this_op:
             self.add("C06", "C06:deleted-with-N<=0", "rotated files %s deleted although the limit is %d"
